@@ -4,7 +4,7 @@
    is enabled -- the harness waits for exactly that quiescence), and the monitors of model/IngestSpec.v are run
    over the OBSERVED events. *)
 From Coq Require Import List NArith ZArith Bool.
-From Qryn Require Import model.Ingest model.PushHandler model.PushConfirm model.IngestSpec model.IngestSched model.IngestFresh model.PushRead.
+From Qryn Require Import model.Ingest model.PushHandler model.PushConfirm model.IngestSpec model.IngestSched model.IngestFresh model.PushRead model.IngestSwap2.
 Import ListNotations.
 
 (* ---------------------------------------------------------------- compact literals *)
@@ -39,7 +39,13 @@ Inductive op :=
  | OPlanG (ws : list nat)                                   (* PlanFlush of a round robin: all its workers *)
  | OSend (s : nat)                                          (* let the OnBeforeInsert callback of worker s return: Do is called *)
  | ORet (s : nat) (ok : bool)                               (* let the blocked Do of worker s return *)
- | OStop (s : nat).                                         (* Stop *)
+ | OStop (s : nat)                                          (* Stop *)
+ | OMidReq (s : nat) (k : kind) (n : N) (r : req) (sz : Z). (* PlanFlush on worker s, and a Request that ARRIVES WHILE the planned flush
+                                                               is inside swapBuffers waiting for its next column set (the harness holds the
+                                                               column-pool mutex acquireColumns needs).  swapBuffers is ONE hold of the service
+                                                               mutex, acquireColumns included (model/IngestRegions.v), so the request waits for
+                                                               that mutex and is served after the swap: SPlan, the fetch loop's steps, SRequest.
+                                                               The two-step variant in which it gets in between is model/IngestSwap2.v. *)
 
 Definition op_acts (o : op) : list gact :=
   match o with
@@ -49,6 +55,7 @@ Definition op_acts (o : op) : list gact :=
   | OSend s => [GSvc s SSend]
   | ORet s ok => [GSvc s (SDoReturn ok)]
   | OStop s => [GSvc s SStop]
+  | OMidReq s k n r sz => [GSvc s SPlan]                (* the first half; the request follows the fetch loop's steps (op_step) *)
   end.
 
 (* the fetch loop of worker s runs while it can: dial (outcomes taken from the worker's script, then success),
@@ -85,18 +92,40 @@ Fixpoint settle_all (g : gstate) (s : nat) (dls : list (list bool)) : gstate * l
       (g2, dl' :: rest', e1 ++ e2)
   end.
 
+(* one operation: the external step(s), then the fetch loops run while they can.  The events are listed in the order the harness
+   reports them (the call and what it completed first, then the workers' dials and swaps; OMidReq: see below). *)
+Definition op_step (g : gstate) (dls : list (list bool)) (o : op) : option (gstate * list (list bool) * list event) :=
+  match grun g (op_acts o) with
+  | None => None
+  | Some (g1, e1) =>
+      let '(g2, dls', e2) := settle_all g1 0 dls in
+      match o with
+      | OMidReq s k n r sz =>
+          match gstep g2 (GEnvReq s k n (red k r) sz) with
+          | None => None
+          | Some (g3, e3) =>
+              let '(g4, dls'', e4) := settle_all g3 0 dls' in
+              (* a swap in progress holds the service mutex: the request is served -- and reported -- after it; otherwise the call
+                 returns at once and is reported first, as for OReq *)
+              if existsb (fun e => match e with ESwap _ => true | _ => false end) e2
+              then Some (g4, dls'', e1 ++ e2 ++ e3 ++ e4)
+              else Some (g4, dls'', e3 ++ e1 ++ e2 ++ e4)
+          end
+      | _ => Some (g2, dls', e1 ++ e2)
+      end
+  end.
+
 (* events of the model, one list per operation; None = the model cannot take the step *)
 Fixpoint run_ops (g : gstate) (dls : list (list bool)) (ops : list op) : option (list (list event)) :=
   match ops with
   | [] => Some []
   | o :: rest =>
-      match grun g (op_acts o) with
+      match op_step g dls o with
       | None => None
-      | Some (g1, e1) =>
-          let '(g2, dls', e2) := settle_all g1 0 dls in
+      | Some (g2, dls', es) =>
           match run_ops g2 dls' rest with
           | None => None
-          | Some l => Some ((e1 ++ e2) :: l)
+          | Some l => Some (es :: l)
           end
       end
   end.
@@ -123,10 +152,14 @@ Fixpoint ops_fresh (own : N -> okey) (g : gstate) (dls : list (list bool)) (ops 
   | [] => true
   | o :: rest =>
       (* the request as submitted (row ids before the reduction of the lossy columns) *)
-      (match o with OReq s k n r sz => env_new g n && req_owned_fast own (KEnv n) r | _ => true end) &&
-      match grun g (op_acts o) with
+      (match o with
+       | OReq s k n r sz => env_new g n && req_owned_fast own (KEnv n) r
+       | OMidReq s k n r sz => env_new g n && req_owned_fast own (KEnv n) r    (* the flush before it creates no promise *)
+       | _ => true
+       end) &&
+      match op_step g dls o with
       | None => true
-      | Some (g1, _) => let '(g2, dls', _) := settle_all g1 0 dls in ops_fresh own g2 dls' rest
+      | Some (g2, dls', _) => ops_fresh own g2 dls' rest
       end
   end.
 
@@ -182,7 +215,7 @@ Record case := {
 }.
 
 Definition op_wf (o : op) : bool :=
-  match o with OReq _ k _ r _ => wf_reqb k r | _ => true end.
+  match o with OReq _ k _ r _ => wf_reqb k r | OMidReq _ k _ r _ => wf_reqb k r | _ => true end.
 Definition case_wf (c : case) : bool := forallb op_wf (c_ops c).
 
 Definition model_mismatch (c : case) : bool :=
@@ -241,6 +274,139 @@ Definition fresh_cases (cs : list case) : list Z := map c_id (filter case_fresh 
 Definition mismatches (cs : list case) : list Z := map c_id (filter model_mismatch cs).
 Definition c01_violations (cs : list case) : list Z := map c_id (filter c01_violation cs).
 Definition c02_violations (cs : list case) : list Z := map c_id (filter c02_violation cs).
+
+(* ---------------------------------------------------------------- diagnosis: the two-step swap (model/IngestSwap2.v)
+   The same script executed by the refuted VARIANT in which swapBuffers is two critical sections: the request of an OMidReq is served in
+   the window between ATake and AInstall whenever the planned flush opens one.  When the observations of a script that the model does not
+   explain ARE the variant's run, the replay names the variant's action sequence (two_step_swap_refuted is the theorem about it). *)
+Definition xrun1 (x : gstate2) (a : gact2) : option (gstate2 * list event * list gact2) :=
+  match gstep2 x a with Some (x', es) => Some (x', es, [a]) | None => None end.
+
+(* the fetch loop of worker s in the variant: dial while needed, then take and -- if something was taken -- install; `mid` is served in
+   the window if there is one.  Returns the state, the dial script left, the events, the actions and whether `mid` was served. *)
+Fixpoint vsettle_svc (fuel : nat) (x : gstate2) (s : nat) (dl : list bool) (mid : option gact)
+  : gstate2 * list bool * list event * list gact2 * option (list event) :=
+  match fuel with
+  | O => (x, dl, [], [], None)
+  | S f =>
+      match nth_error (svcs (g_base x)) s with
+      | None => (x, dl, [], [], None)
+      | Some sv =>
+          if loop_ready sv then
+            if client sv then
+              match xrun1 x (ATake s) with
+              | Some (x1, e1, a1) =>
+                  if in_window (g_taken x1) s then
+                    let '(x2, a2, served) :=
+                      match mid with
+                      | Some m => match xrun1 x1 (A1 m) with Some (x2, e2, a2) => (x2, a2, Some e2) | None => (x1, [], None) end
+                      | None => (x1, [], None)
+                      end in
+                    match xrun1 x2 (AInstall s) with
+                    | Some (x3, e3, a3) => (x3, dl, e1 ++ e3, a1 ++ a2 ++ a3, served)
+                    | None => (x2, dl, e1, a1 ++ a2, served)
+                    end
+                  else (x1, dl, e1, a1, None)
+              | None => (x, dl, [], [], None)
+              end
+            else
+              let d := match dl with [] => true | d :: _ => d end in
+              match xrun1 x (A1 (GSvc s (SDial d))) with
+              | Some (x1, e1, a1) =>
+                  let '(x2, dl', e2, a2, served) := vsettle_svc f x1 s (tl dl) mid in
+                  (x2, dl', e1 ++ e2, a1 ++ a2, served)
+              | None => (x, dl, [], [], None)
+              end
+          else (x, dl, [], [], None)
+      end
+  end.
+Fixpoint vsettle_all (x : gstate2) (s : nat) (dls : list (list bool)) : gstate2 * list (list bool) * list event * list gact2 :=
+  match dls with
+  | [] => (x, [], [], [])
+  | dl :: rest =>
+      let '(x1, dl', e1, a1, _) := vsettle_svc (S (S (length dl))) x s dl None in
+      let '(x2, rest', e2, a2) := vsettle_all x1 (S s) rest in
+      (x2, dl' :: rest', e1 ++ e2, a1 ++ a2)
+  end.
+Fixpoint vrun_acts (x : gstate2) (l : list gact) : option (gstate2 * list event * list gact2) :=
+  match l with
+  | [] => Some (x, [], [])
+  | a :: t =>
+      match xrun1 x (A1 a) with
+      | Some (x1, e1, a1) => match vrun_acts x1 t with Some (x2, e2, a2) => Some (x2, e1 ++ e2, a1 ++ a2) | None => None end
+      | None => None
+      end
+  end.
+Definition upd_dl (dls : list (list bool)) (s : nat) (dl : list bool) : list (list bool) := upd s dl dls.
+Definition vop_step (x : gstate2) (dls : list (list bool)) (o : op) : option (gstate2 * list (list bool) * list event * list gact2) :=
+  match vrun_acts x (op_acts o) with
+  | None => None
+  | Some (x1, e1, a1) =>
+      match o with
+      | OMidReq s k n r sz =>
+          let m := GEnvReq s k n (red k r) sz in
+          let dl := nth s dls [] in
+          let '(x2, dl', e2, a2, served) := vsettle_svc (S (S (length dl))) x1 s dl (Some m) in
+          let dls2 := upd_dl dls s dl' in
+          match served with
+          | Some em =>
+              (* the call and what it completed are reported first *)
+              let '(x3, dls3, e3, a3) := vsettle_all x2 0 dls2 in Some (x3, dls3, em ++ e1 ++ e2 ++ e3, a1 ++ a2 ++ a3)
+          | None =>
+              match xrun1 x2 (A1 m) with
+              | Some (x3, e3, a3) =>
+                  let '(x4, dls4, e4, a4) := vsettle_all x3 0 dls2 in
+                  if existsb (fun e => match e with ESwap _ => true | _ => false end) e2
+                  then Some (x4, dls4, e1 ++ e2 ++ e3 ++ e4, a1 ++ a2 ++ a3 ++ a4)
+                  else Some (x4, dls4, e3 ++ e1 ++ e2 ++ e4, a1 ++ a2 ++ a3 ++ a4)
+              | None => None
+              end
+          end
+      | _ => let '(x2, dls', e2, a2) := vsettle_all x1 0 dls in Some (x2, dls', e1 ++ e2, a1 ++ a2)
+      end
+  end.
+Fixpoint vrun_ops (x : gstate2) (dls : list (list bool)) (ops : list op) : option (list (list event) * list gact2) :=
+  match ops with
+  | [] => Some ([], [])
+  | o :: rest =>
+      match vop_step x dls o with
+      | None => None
+      | Some (x2, dls', es, acts) =>
+          match vrun_ops x2 dls' rest with
+          | None => None
+          | Some (l, acts') => Some (es :: l, acts ++ acts')
+          end
+      end
+  end.
+Definition has_midreq (c : case) : bool := existsb (fun o => match o with OMidReq _ _ _ _ _ => true | _ => false end) (c_ops c).
+(* the observations are the run of the two-step variant (and the script has a request in a window) *)
+Definition variant_explains (c : case) : bool :=
+  has_midreq c &&
+  match vrun_ops (ginit2 (c_cfg c) (c_attempts c)) (c_dials c) (c_ops c) with
+  | Some (l, _) => obs_eqb l (c_obs c)
+  | None => false
+  end.
+(* the variant's actions, coded (what, worker, argument): 0 Request (promise number) . 1 PlanFlush . 2 dial (1 = accepted) . 3 ATake .
+   4 AInstall . 5 Do called . 6 Do returns (1 = accepted) . 7 Stop . 8 ping fails . 9 other *)
+Definition act_code (a : gact2) : nat * nat * N :=
+  match a with
+  | ATake s => (3, s, 0%N)
+  | AInstall s => (4, s, 0%N)
+  | A1 (GEnvReq s _ n _ _) => (0, s, n)
+  | A1 (GSvc s SPlan) => (1, s, 0%N)
+  | A1 (GSvc s (SDial ok)) => (2, s, if ok then 1%N else 0%N)
+  | A1 (GSvc s SSend) => (5, s, 0%N)
+  | A1 (GSvc s (SDoReturn ok)) => (6, s, if ok then 1%N else 0%N)
+  | A1 (GSvc s SStop) => (7, s, 0%N)
+  | A1 (GSvc s SPingFail) => (8, s, 0%N)
+  | A1 _ => (9, 0, 0%N)
+  end.
+Definition variant_actions (c : case) : list (nat * nat * N) :=
+  match vrun_ops (ginit2 (c_cfg c) (c_attempts c)) (c_dials c) (c_ops c) with
+  | Some (_, acts) => map act_code acts
+  | None => []
+  end.
+Definition variant_explained (cs : list case) : list Z := map c_id (filter variant_explains cs).
 
 (* ================================================================================================
    Level 2: the HTTP handlers.  Operations: an HTTP push arrives (its parser output is known), PlanFlush,
